@@ -111,6 +111,24 @@ func awaitVisiblePart(s *bb.Server, db string, d *DataJ, mid int64) bool {
 	return awaitVisible(s, db, part)
 }
 
+// transient reports whether a differing answer is correct when the same query is asked again a moment later
+// (observed rarely while the server flushes in the background; not re-executable, therefore counted, not failed).
+func (l *loaded) transient(expr string, start, end, step int64, want *Result) bool {
+	if !l.s.Alive() {
+		return false
+	}
+	time.Sleep(300 * time.Millisecond)
+	got, _, _, err := promQuery(l.s, l.db, expr, start, end, step)
+	if err != nil || got == nil {
+		return false
+	}
+	ok := diffResults(got, want, l.absEps) == ""
+	if ok {
+		fmt.Fprintf(os.Stderr, "C18 transient discrepancy (second attempt agrees): %s start=%d end=%d step=%d\n", expr, start, end, step)
+	}
+	return ok
+}
+
 // steps of a range query (ms after base)
 func (q QueryJ) steps() []int64 {
 	if q.Step <= 0 {
@@ -151,7 +169,10 @@ func (l *loaded) checkQuery(q QueryJ, note func(string)) string {
 		} else {
 			note("ref_empty")
 		}
-		if d := diffResults(got, want, l.absEps); d != "" {
+		if d := diffResults(got, want, l.absEps); d != "" && l.transient(q.Expr, base+q.Start, base+q.End, q.Step, want) {
+			note("transient_discrepancy_not_reproduced_on_retry")
+			return ""
+		} else if d != "" {
 			return fmt.Sprintf("query_range differs from the upstream engine: %s\n server:    %s\n reference: %s", d, got, want)
 		}
 		// metamorphic relation + instant differential at every step
@@ -172,6 +193,10 @@ func (l *loaded) checkQuery(q QueryJ, note func(string)) string {
 				// scalars are reported as a one-point series without labels by both decoders
 			}
 			if d := diffResults(gi, wi, l.absEps); d != "" {
+				if l.transient(q.Expr, base+t, base+t, 0, wi) {
+					note("transient_discrepancy_not_reproduced_on_retry")
+					continue
+				}
 				return fmt.Sprintf("instant query at t=%d differs from the upstream engine: %s\n server:    %s\n reference: %s", base+t, d, gi, wi)
 			}
 			if gi.Type == "vector" {
@@ -199,7 +224,10 @@ func (l *loaded) checkQuery(q QueryJ, note func(string)) string {
 	} else {
 		note("ref_empty")
 	}
-	if d := diffResults(got, want, l.absEps); d != "" {
+	if d := diffResults(got, want, l.absEps); d != "" && l.transient(q.Expr, base+q.Start, base+q.Start, 0, want) {
+		note("transient_discrepancy_not_reproduced_on_retry")
+		return ""
+	} else if d != "" {
 		return fmt.Sprintf("instant query differs from the upstream engine: %s\n server:    %s\n reference: %s", d, got, want)
 	}
 	return ""
@@ -213,7 +241,9 @@ func runCase(c *CaseJ, note func(qi int, what string), all bool) []Violation {
 		return []Violation{{Msg: msg}}
 	}
 	if os.Getenv("C18_TIMING") != "" {
-		defer func(t1 time.Time) { fmt.Printf("TIMING load=%v queries=%v n=%d\n", t1.Sub(t0), time.Since(t1), len(c.Queries)) }(time.Now())
+		defer func(t1 time.Time) {
+			fmt.Printf("TIMING load=%v queries=%v n=%d\n", t1.Sub(t0), time.Since(t1), len(c.Queries))
+		}(time.Now())
 	}
 	var out []Violation
 	for i, q := range c.Queries {
